@@ -216,6 +216,11 @@ func c12World(cf c12cfg) (*appx.World, appx.Genesis, []appx.Op) {
 		if s == 0 {
 			ops = append(ops, op("seen", s, 1, 0))
 		}
+		if s == 1 {
+			// a check-in that must be refused (malformed encryption key) with a validator
+			// key of its own: it must not count towards the quorum nor name a validator
+			ops = append(ops, op("checkin", s, 1, 1))
+		}
 	}
 	ops = append(ops, endblock)
 	return w, g, ops
@@ -246,7 +251,7 @@ func c12Step(w *appx.World, genesisSet map[string]int64, n c12node, o appx.Op, s
 				}
 			}
 			_, again := ref.Identities[sender]
-			want := member && (!again || (ref.ForkOn && ref.Height >= ref.ForkHeight))
+			want := member && (!again || (ref.ForkOn && ref.Height >= ref.ForkHeight)) && o.B == 0 // B=1: malformed encryption key
 			if got := res.Deliver.Code == 0; got != want {
 				return next, fmt.Sprintf("check-in of participant %d in block %d (member of an accepted configuration: %v, checked in before: %v, fork enabled: %v at height %d) is %s", o.Sender, ref.Height, member, again, ref.ForkOn, ref.ForkHeight, map[bool]string{true: "accepted although it must not count", false: "refused (" + res.Deliver.Log + ") although it must count"}[got])
 			}
@@ -402,7 +407,7 @@ func c12Key(n c12node) string {
 func c12() *report.Check {
 	return &report.Check{
 		Level: "model_checking",
-		Rule:  "BFS over check-in / config-vote / block-seen (also a lower report after a higher one) / block-end histories on the real app for every (n,t) in the bound, fork on and off; ValidatorUpdates of every EndBlock folded over a reference Tendermint validator set and compared with an independently computed intended set; plus DiffPowermaps over all ordered pairs of power maps on a 3-key universe. Classes = kinds of block end (number of updates) and diff shapes",
+		Rule:  "BFS over check-in (also one that must be refused for its malformed encryption key) / config-vote / block-seen (also a lower report after a higher one) / block-end histories on the real app for every (n,t) in the bound, fork on and off; ValidatorUpdates of every EndBlock folded over a reference Tendermint validator set and compared with an independently computed intended set; plus DiffPowermaps over all ordered pairs of power maps on a 3-key universe. Classes = kinds of block end (number of updates) and diff shapes",
 		Assumptions: []string{
 			"Tendermint's update rules modelled from types.ValidatorSet.UpdateWithChangeSet: sorted by key, no duplicates, removals must exist, result non-empty",
 			"validator keys are the two deterministic ed25519 keys per participant; nobody checks in with the placeholder key",
